@@ -523,10 +523,10 @@ func (P *Program) EntryGuards(fn *ssa.Function) []Lit {
 	P.entryBusy[fn] = true
 	defer delete(P.entryBusy, fn)
 	var out []Lit
-	if fn.Parent() != nil {
+	if closureLike(fn) {
 		if mc := P.closureSite(fn); mc != nil {
 			out = append(out, P.BlockGuards(mc.Block())...)
-			out = append(out, P.EntryGuards(fn.Parent())...)
+			out = append(out, P.EntryGuards(mc.Parent())...)
 		}
 		// a function literal that is called directly from product code additionally has its call sites' guards
 		if callers := P.Callers(fn); len(callers) > 0 {
@@ -938,10 +938,10 @@ func (P *Program) GuardPathsVia(ins ssa.Instruction, via ssa.CallInstruction) []
 		}
 		onPath[fn] = true
 		defer delete(onPath, fn)
-		if fn.Parent() != nil && len(P.Callers(fn)) == 0 {
+		if closureLike(fn) && len(P.Callers(fn)) == 0 {
 			if mc := P.closureSite(fn); mc != nil {
 				a2 := acc.union(newLitSet(P.BlockGuards(mc.Block())))
-				walk(fn.Parent(), a2, onPath)
+				walk(mc.Parent(), a2, onPath)
 				return
 			}
 		}
@@ -1022,7 +1022,7 @@ func (P *Program) GuardsWithin(ins ssa.Instruction, top *ssa.Function) []Lit {
 	out := append([]Lit{}, P.BlockGuards(ins.Block())...)
 	fn := ins.Parent()
 	for steps := 0; fn != nil && fn != top && steps < 16; steps++ {
-		if fn.Parent() != nil {
+		if closureLike(fn) {
 			if mc := P.closureSite(fn); mc != nil {
 				out = append(out, P.BlockGuards(mc.Block())...)
 			}
@@ -1034,7 +1034,11 @@ func (P *Program) GuardsWithin(ins ssa.Instruction, top *ssa.Function) []Lit {
 			fn = callers[0].Parent()
 			continue
 		}
-		fn = fn.Parent()
+		if mc := P.closureSite(fn); mc != nil {
+			fn = mc.Parent()
+		} else {
+			fn = fn.Parent()
+		}
 	}
 	return dedupLits(out)
 }
